@@ -19,11 +19,11 @@ theorem mkmk_attach {i : Input} {al : AList} (w : ALwf i al) {b m : String} {ab 
   have hcl := pair_classOf w p hok
   obtain ⟨recs, hcls, r, hr, hrg⟩ := pair_class w p hok
   obtain ⟨as', has', hab'⟩ := pair_prune_b w p
-  have ht0 : (ab.key, b, (⟨ab, "MC" ++ am.name⟩ : BAnchor)) ∈ maOf i al := mkmkAtts_mem has' hmg hab' hpl hnum hcl
+  have ht0 : (ab.key, b, (⟨ab, cnOf i al am.name⟩ : BAnchor)) ∈ maOf i al := mkmkAtts_mem has' hmg hab' hpl hnum hcl
   generalize hes : ((maOf i al).filter (fun t => t.1 == ab.key && inc t.2.1 && mf t.2.2.a)).map (fun t =>
       (⟨t.2.1, [compAST [t.2.2]]⟩ : Entry)) = es
   -- every entry of this lookup refers to the class of the pair
-  have hentry : ∀ e ∈ es, ∃ x : BAnchor, e.comps = [compAST [x]] ∧ x.cls = "MC" ++ am.name := by
+  have hentry : ∀ e ∈ es, ∃ x : BAnchor, e.comps = [compAST [x]] ∧ x.cls = cnOf i al am.name := by
     intro e he
     rw [← hes] at he
     obtain ⟨t, ht, rfl⟩ := mem_map.mp he
@@ -32,7 +32,7 @@ theorem mkmk_attach {i : Input} {al : AList} (w : ALwf i al) {b m : String} {ab 
     obtain ⟨_, hk, _, hc, _⟩ := mkmkAtts_ok ht1
     refine ⟨t.2.2, rfl, ?_⟩
     exact classOf_same_key hc hcl (by rw [← hk, ht2.1.1])
-  have he0 : (⟨b, [compAST [⟨ab, "MC" ++ am.name⟩]]⟩ : Entry) ∈ es := by
+  have he0 : (⟨b, [compAST [⟨ab, cnOf i al am.name⟩]]⟩ : Entry) ∈ es := by
     rw [← hes]
     exact mem_map.mpr ⟨_, mem_filter.mpr ⟨ht0, by simp [hinc, hmf]⟩, rfl⟩
   have hL : (⟨feat, .mkmk, es⟩ : Lookup) ∈ mkmkLookups feat inc mf (maOf i al) := by
@@ -43,7 +43,7 @@ theorem mkmk_attach {i : Input} {al : AList} (w : ALwf i al) {b m : String} {ab 
       cases es with
       | nil => simp at he0
       | cons _ _ => simp
-  have hused : ∀ cn, cn ∈ usedClasses (⟨feat, .mkmk, es⟩ : Lookup) → cn = "MC" ++ am.name := by
+  have hused : ∀ cn, cn ∈ usedClasses (⟨feat, .mkmk, es⟩ : Lookup) → cn = cnOf i al am.name := by
     intro cn hcn
     obtain ⟨e, he, comp, hcomp, t, ht, htc⟩ := mem_usedClasses.mp hcn
     obtain ⟨x, hc, hx⟩ := hentry e he
@@ -53,8 +53,8 @@ theorem mkmk_attach {i : Input} {al : AList} (w : ALwf i al) {b m : String} {ab 
     simp only [mem_singleton] at hy; subst hy
     rw [← htc]; exact hx
   refine ⟨_, hL, attachLookup_isSome rfl ⟨_, he0, rfl⟩ ?_ ?_⟩
-  · refine ⟨("MC" ++ am.name, recs), hcls, ?_, r, hr, hrg⟩
-    exact mem_usedClasses.mpr ⟨_, he0, compAST [⟨ab, "MC" ++ am.name⟩], mem_singleton.mpr rfl,
+  · refine ⟨(cnOf i al am.name, recs), hcls, ?_, r, hr, hrg⟩
+    exact mem_usedClasses.mpr ⟨_, he0, compAST [⟨ab, cnOf i al am.name⟩], mem_singleton.mpr rfl,
       _, mem_compAST_of (mem_singleton.mpr rfl), rfl⟩
   · intro e he _ cls _ hu _
     obtain ⟨x, hc, hx⟩ := hentry e he
